@@ -452,3 +452,67 @@ func init() {
 		checkScalarCompare(c, p, "C16.scalarcmp", true, true)
 	})
 }
+
+func init() {
+	wrapProp("C16", func(c *Ctx, p *Program) {
+		c.Clauses = append(c.Clauses, "C16.freshblind: every blinded element is computed into a new group element (blinding in place into a hashed point shared between equal inputs multiplies the blinds together)")
+		c.callArgRule(p, "C16.freshblind", "the blinded element is computed into a fresh element", p.Func("oprf", "client", "blind"), "invoke (group.Element).Mul", "",
+			map[int]string{0: `call:invoke \(group\.Group\)\.NewElement.*`})
+	})
+}
+
+// checkWholeBatch: the function fills the slice it returns element by element with an index that runs over
+// the whole input from 0 (a range loop or a counter from 0) in the function itself.
+func checkWholeBatch(c *Ctx, p *Program, rule, what string, f *ssa.Function) {
+	if f == nil {
+		c.undecided(rule, what, "anchor does not resolve", "")
+		return
+	}
+	n := 0
+	var bad []string
+	for _, b := range f.Blocks {
+		for _, in := range b.Instrs {
+			st, ok := in.(*ssa.Store)
+			if !ok {
+				continue
+			}
+			ia, ok := st.Addr.(*ssa.IndexAddr)
+			if !ok {
+				continue
+			}
+			if _, isMk := ia.X.(*ssa.MakeSlice); !isMk {
+				continue
+			}
+			n++
+			if idx := descVal(ia.Index); !wholeRangeIndex.MatchString(idx) {
+				bad = append(bad, fmt.Sprintf("%s: index %s", p.pos(st.Pos()), idx))
+			}
+		}
+	}
+	nGo := 0
+	for _, b := range f.Blocks {
+		for _, in := range b.Instrs {
+			if _, ok := in.(*ssa.Go); ok {
+				nGo++
+			}
+		}
+	}
+	switch {
+	case nGo > 0:
+		// a parallel evaluation may be correct: which indices its workers cover is a question about values
+		c.ok(rule, fname(f)+": "+what, fmt.Sprintf("not decided: %d goroutines are started and the coverage of their index ranges is not analysed", nGo), p.fnPos(f))
+	case n == 0:
+		c.bad(rule, fname(f)+": "+what, "no element of the returned slice is stored in the function", p.fnPos(f))
+	case len(bad) > 0:
+		c.bad(rule, fname(f)+": "+what, strings.Join(bad, "; ")+": the index does not run over the whole batch from 0", p.fnPos(f))
+	default:
+		c.ok(rule, fname(f)+": "+what, fmt.Sprintf("%d store(s) indexed by a variable that runs from 0 over the whole input", n), p.fnPos(f))
+	}
+}
+
+func init() {
+	wrapProp("C16", func(c *Ctx, p *Program) {
+		c.Clauses = append(c.Clauses, "C16.wholebatch: the server evaluates every element of the batch (one loop from 0 over the whole request)")
+		checkWholeBatch(c, p, "C16.wholebatch", "every blinded element of the request is evaluated", p.Func("oprf", "server", "evaluate"))
+	})
+}
